@@ -94,5 +94,32 @@ func (a *acc) routeStructRefill() {
 				}
 			}
 		}
+		// two ill-typed fields: the call is refused (or not) in the same words whichever field the converter meets first
+		first := ""
+		for pi, p := range perms3() {
+			in := caseIn{Route: "struct-refill", Type: t.String(), Value: "two-bad " + fmt.Sprint(p)}
+			two := mp("X", object.NewString("x is not a number"), "Label", object.NewString("fine"), "Y", list(object.NewInt(1)))
+			if sliceForm {
+				two = list(two)
+			}
+			h, _ := mk()
+			setStructOrder(p)
+			a.Evals++
+			o := eval("h.Echo(p)", map[string]any{"h": h, "p": two})
+			setStructOrder(nil)
+			kind, text := o.failure()
+			if kind == "panic" || kind == "vmpanic" {
+				a.fail(in, nil, kind, "method-arg", panicClass(text), "a map with two ill-typed fields passed to a method taking "+t.String()+" panicked", text, "the value converted, or an error")
+				break
+			}
+			outcome := kind + ": " + text
+			if pi == 0 {
+				first = outcome
+			} else if outcome != first {
+				a.fail(in, nil, "altered", "struct-refill", "error-follows-map-order", fmt.Sprintf("a map with two ill-typed fields passed to a method taking %s: the outcome depends on the order in which the fields are visited (order %v)", t.String(), p), outcome, first)
+				break
+			}
+			a.Counts["struct-refill|two-bad|"+kind]++
+		}
 	}
 }
